@@ -205,6 +205,10 @@ def update_state(elasticTrialStrain, stateOld, dt, props, hardening_model):
     # Avoid the initial guess eqpsGuess = eqpsOld, because the power law rate sensitivity has an infinte slope
     # in this case.
     eqpsGuess = 0.5*(lb + ub)
+    # Without hardening ub is the root itself, and round-off decides the sign of the residual there.
+    # Bracket with the increment that relaxes the deviatoric stress completely instead: the residual
+    # at that point is the flow stress, which is strictly positive.
+    ub = eqpsOld + trialMises/(3.0*props[PROPS_MU])
     eqps, _ = ScalarRootFind.find_root(lambda e: r(elasticTrialStrain, e, eqpsOld, dt, props, hardening_model),
                                        eqpsGuess,
                                        np.array([lb, ub]),
